@@ -372,6 +372,8 @@ def main(chk):
     spec01.loader.exec_module(c01)
     c01.rule_refresh_unconditional(chk)
     c01.rule_sorted_on_every_refill(chk)
+    # the particle id read back from a key is the one that was packed into it: every field of the keys is wide enough for its largest value (rule shared with C01)
+    c01.rule_field_widths(chk)
     chk.assume('that head/next, pid and key tables hold each particle exactly once is not decided (see C01)')
 
 
